@@ -27,6 +27,12 @@ Section Facts.
      finished invocation; strict = true: also there nothing may be left behind.  The programs of
      the current tree pass the first and fail the second (Props/C17.v). *)
   Variable strict : bool.
+  (* cstrict = false: where the await is cancelled at the wait nothing but the outcome (CancelledError)
+     is demanded of the finished invocation; cstrict = true: also there nothing may be left behind. *)
+  Variable cstrict : bool.
+  (* CancelledError was delivered at the suspension point (not: the coroutine was never started) *)
+  Definition cancelled_at_wait (s : lst) : bool :=
+    match p_stat (ps s) with PSDone f => is_cancel f && negb (Nat.eqb (p_pc (ps s)) 0) | _ => false end.
 
   (* termination measure: every enabled step strictly decreases it (checked, not assumed) *)
   Definition measure_p (s : lst) : nat :=
@@ -61,7 +67,7 @@ Section Facts.
     (* F3: a finished invocation meets the specification (outside the envelope region: there
        it still exits cleanly) *)
     Definition f_done (s : lst) : bool :=
-      negb (p_done s) ||
+      negb (p_done s) || (cancelled_at_wait s && negb cstrict) ||
       (if returns_envelope b then clean_exit s
        else if b_unp b && negb strict
             then match p_stat (ps s) with PSDone f => outcome_ok b (c_killed (cs s)) f | _ => false end
@@ -69,7 +75,7 @@ Section Facts.
     (* F3': the exact outcome of the model when the child was not killed from outside *)
     Definition f_exact (s : lst) : bool :=
       match p_stat (ps s) with
-      | PSDone f => model_final b f || (c_killed (cs s) && is_cpe f)
+      | PSDone f => is_cancel f || model_final b f || (c_killed (cs s) && is_cpe f)
       | _ => true
       end.
     (* F4: the loop thread is never held blocked while the callee is still computing *)
@@ -166,25 +172,28 @@ Section Facts.
   Qed.
 
   Lemma done_spec : forall b s, lreach P C b s -> p_done s = true -> returns_envelope b = false ->
-    b_unp b && negb strict = false -> spec_ok b s = true.
+    b_unp b && negb strict = false -> cancelled_at_wait s && negb cstrict = false -> spec_ok b s = true.
   Proof.
-    intros b s Hr Hd He Hu. facts b s Hr. unfold f_done in H3. rewrite Hd, He, Hu in H3. exact H3.
+    intros b s Hr Hd He Hu Hc. facts b s Hr. unfold f_done in H3. rewrite Hd, He, Hu, Hc in H3. exact H3.
   Qed.
 
   (* the outcome alone needs no guard on unpickling *)
   Lemma done_outcome : forall b s f, lreach P C b s -> p_stat (ps s) = PSDone f -> returns_envelope b = false ->
     outcome_ok b (c_killed (cs s)) f = true.
   Proof.
-    intros b s f Hr Hf He. facts b s Hr. unfold f_done, p_done in H3. rewrite Hf, He in H3. cbn [negb orb] in H3.
+    intros b s f Hr Hf He. facts b s Hr. unfold f_done, p_done, cancelled_at_wait in H3. rewrite Hf, He in H3.
+    cbn [negb orb] in H3. apply orb_true_iff in H3 as [H3|H3].
+    { apply andb_true_iff in H3 as [H3 _]. apply andb_true_iff in H3 as [H3 _].
+      unfold outcome_ok. rewrite H3. now rewrite orb_true_r. }
     destruct (b_unp b && negb strict).
     - exact H3.
     - unfold spec_ok in H3. rewrite Hf in H3. now apply andb_true_iff in H3.
   Qed.
 
   Lemma done_clean : forall b s, lreach P C b s -> p_done s = true -> b_unp b && negb strict = false ->
-    clean_exit s = true.
+    cancelled_at_wait s && negb cstrict = false -> clean_exit s = true.
   Proof.
-    intros b s Hr Hd Hu. facts b s Hr. unfold f_done in H3. rewrite Hd, Hu in H3. cbn [negb orb] in H3.
+    intros b s Hr Hd Hu Hc. facts b s Hr. unfold f_done in H3. rewrite Hd, Hu, Hc in H3. cbn [negb orb] in H3.
     destruct (returns_envelope b); [exact H3|]. unfold spec_ok in H3.
     destruct (p_stat (ps s)); try discriminate. now apply andb_true_iff in H3.
   Qed.
@@ -273,16 +282,16 @@ Section Facts.
   (* the child reports and nobody kills it: exactly the callee's outcome *)
   Lemma faithful_exact : forall b s f, lreach P C b s ->
     returns_envelope b = false -> callee_reports b = true ->
-    p_stat (ps s) = PSDone f -> c_killed (cs s) = false ->
+    p_stat (ps s) = PSDone f -> c_killed (cs s) = false -> is_cancel f = false ->
     match b_out b with
     | COk => f = FReturnCallee
     | _ => if b_isa b StopIterationC then f = FRaise (XCls RuntimeErrorC) else f = FRaise XCallee
     end.
   Proof.
-    intros b s f Hr He Hrep Hf Hk.
+    intros b s f Hr He Hrep Hf Hk Hnc.
     assert (Hd : p_done s = true) by (unfold p_done; now rewrite Hf).
     pose proof (done_outcome b s f Hr Hf He) as Hs. rewrite Hk in Hs.
-    unfold outcome_ok in Hs. rewrite andb_false_l, orb_false_r in Hs.
+    unfold outcome_ok in Hs. rewrite Hnc, andb_false_l, !orb_false_r in Hs.
     unfold demanded in Hs. rewrite Hrep in Hs.
     destruct (b_out b).
     - destruct f as [| |x]; try discriminate; reflexivity.
@@ -294,11 +303,11 @@ Section Facts.
       + destruct f as [| |[|c|]]; try discriminate; reflexivity.
   Qed.
 
-  Lemma death_outcome : forall b s f, lreach P C b s -> p_stat (ps s) = PSDone f ->
+  Lemma death_outcome : forall b s f, lreach P C b s -> p_stat (ps s) = PSDone f -> is_cancel f = false ->
     model_final b f = true \/ (c_killed (cs s) = true /\ is_cpe f = true).
   Proof.
-    intros b s f Hr Hf. pose proof (done_exact b s Hr) as H.
-    unfold f_exact in H. rewrite Hf in H. apply orb_true_iff in H as [H|H]; [now left|].
+    intros b s f Hr Hf Hnc. pose proof (done_exact b s Hr) as H.
+    unfold f_exact in H. rewrite Hf, Hnc in H. cbn [orb] in H. apply orb_true_iff in H as [H|H]; [now left|].
     right. now apply andb_true_iff in H.
   Qed.
 
@@ -308,9 +317,9 @@ Section Facts.
   Proof.
     intros b s f Hr Hf Hd. unfold child_died_unreported in Hd.
     repeat (apply andb_true_iff in Hd; let H' := fresh "H" in destruct Hd as [Hd H']).
-    apply negb_true_iff in Hd. apply negb_true_iff in H0.
+    apply negb_true_iff in Hd. apply negb_true_iff in H0. apply negb_true_iff in H1.
     assert (Hc : is_cpe f = true).
-    { destruct (death_outcome b s f Hr Hf) as [Hm | [_ Hm]]; [|exact Hm].
+    { destruct (death_outcome b s f Hr Hf H1) as [Hm | [_ Hm]]; [|exact Hm].
       unfold model_final in Hm. destruct (returns_envelope b).
       - destruct f as [| |[| |]]; discriminate.
       - destruct (callee_reports b) eqn:Er.
